@@ -234,6 +234,11 @@ pub fn fine_configs(thorough: bool) -> Vec<(String, Vec<Vec<Call>>)> {
     }
     let rules: Vec<(&str, Arc<Value>)> = fam.into_iter().map(|(n, r)| (n, Arc::new(r))).collect();
     let mut v = Vec::new();
+    if !thorough {
+        // two threads each writing one log line: the line is one write, whatever the other thread does meanwhile
+        let (l1, l2) = (Arc::new(json!({"log": {"var": "a"}})), Arc::new(json!({"log": [{"var": "xs"}]})));
+        v.push(("fine:log|log".to_string(), vec![vec![Call { rule: l1, data: d1.clone() }], vec![Call { rule: l2, data: d2.clone() }]]));
+    }
     if extra.len() == 2 {
         v.push((
             format!("fine:{}|{}", extra[0].0, extra[1].0),
@@ -282,7 +287,9 @@ pub fn fine_run(a: &[String]) -> i32 {
             }
         }
     }
-    let mut mine: Vec<(usize, bool, usize, usize)> = units.iter().enumerate().filter(|(u, _)| u % nshards == shard).map(|(_, x)| *x).collect();
+    // (shifted by the part number, so that the parts of one configuration go to different shards whatever the
+    // number of configurations is)
+    let mut mine: Vec<(usize, bool, usize, usize)> = units.iter().enumerate().filter(|(u, x)| (u + x.2) % nshards == shard).map(|(_, x)| *x).collect();
     mine.sort_by_key(|u| !u.1);
     for (i, cold, part, parts) in mine {
         let (name, bodies) = &cfgs[i];
